@@ -48,7 +48,7 @@ REF = {
     "custom_two_max": lambda a, b, s, e, n: a <= s <= b + 1 and n < 2,
 }
 PATTERNS = ("uniform", "last_strand", "last_type", "last_seqid")
-HISTORIES = ("fresh", "premerged_exact", "twice", "outputs")
+HISTORIES = ("fresh", "premerged_exact", "twice", "outputs", "after_children_bp")
 
 
 def multisets(npos, k):
@@ -188,7 +188,11 @@ def body_merge(ch, ctx):
     sig = dict(criteria=cname, pattern=pattern, history=history)
     ctx.sample(lambda: dict(intervals=list(ms), criteria=cname, pattern=pattern, history=history))
     try:
-        if history == "premerged_exact":
+        if history == "after_children_bp":
+            db.children_bp("g0", child_featuretype="exon", merge=True)
+            db.children_bp("g0", child_featuretype="exon")
+            outs = run_merge(db, objs, crit)
+        elif history == "premerged_exact":
             run_merge(db, objs, CRITERIA[3][1])
             outs = run_merge(db, objs, crit)
         elif history == "twice":
@@ -242,7 +246,7 @@ def body_db(ch, ctx):
     _, _, i0, i1 = ctx.shard
     m3 = [m for m in msets(ctx.tier) if len(m) <= 3 or ctx.tier == "quick"]
     ms = ch.choose("multiset", m3[i0:i1])
-    op = ch.choose("operation", ("merge_all", "merge_all_exclude", "children_bp", "children_bp_merge"))
+    op = ch.choose("operation", ("merge_all", "merge_all_exclude", "children_bp", "children_bp_merge", "merge_all_thr2", "merge_all_exact"))
     file_order = ch.choose("file_order", ("ascending", "descending"))
     lines = ["c1\ts\tmRNA\t1\t9\t.\t+\t.\tID=t1"]
     exon_lines = ["c1\ts\texon\t%d\t%d\t.\t+\t.\tID=x%d;Parent=t1" % (s, e, i) for i, (s, e) in enumerate(ms)]
@@ -251,7 +255,10 @@ def body_db(ch, ctx):
     path = dbutil.write_text(wd, "in.gff", "\n".join(lines) + "\n")
     db = gffutils.create_db(path, os.path.join(wd, "o.db"), verbose=False)
     rows = [("c1", "+", "exon", s, e) for s, e in ms]
-    runs = ref_runs(rows, "default", True)
+    crit_name = {"merge_all_thr2": "end_thr2", "merge_all_exact": "exact"}.get(op, "default")
+    # merge_all feeds merge() in (seqid, featuretype, strand, start) order; equal starts keep file order only by accident,
+    # so the reference is computed for the start-ordered rows and compared as sets of runs' extents
+    runs = ref_runs(rows, crit_name, crit_name == "default")
     ctx.sample(lambda: dict(intervals=list(ms), operation=op))
     ctx.nontrivial(any(len(r) > 1 for r in runs))
     ctx.outcome((op, tuple(len(r) for r in runs)))
@@ -265,8 +272,11 @@ def body_db(ch, ctx):
         ctx.check(dbutil.canon(db) == before, "database-modified-by-children_bp", sig)
         return
     excl = op.endswith("exclude")
+    mkw = {}
+    if crit_name != "default":
+        mkw["merge_criteria"] = dict(CRITERIA)[crit_name]()
     try:
-        res = db.merge_all(exclude_components=excl, featuretypes_groups=(("exon",),))
+        res = db.merge_all(exclude_components=excl, featuretypes_groups=(("exon",),), **mkw)
     except Exception as ex:
         ctx.fail("merge_all-raised", dict(sig, exc=type(ex).__name__), intervals=list(ms), message=str(ex)[:200])
         return
